@@ -159,9 +159,13 @@ impl SimDict {
 
 impl DictionaryAccess for SimDict {
     fn grammar(&self) -> &Grammar<'_> {
+        // the tokenizer fetches the grammar when it builds the input and the lattice: one more sim point
+        self.ctl.point(8);
         self.inner.grammar()
     }
     fn lexicon(&self) -> &LexiconSet<'_> {
+        // fetched before lattice construction, best-path resolution and splitting
+        self.ctl.point(9);
         self.inner.lexicon()
     }
     fn input_text_plugins(&self) -> &[Box<dyn InputTextPlugin + Sync + Send>] {
